@@ -14,17 +14,20 @@ NOT_APPLICABLE: dict[str, str] = {}
 # inputs past the enumerated bound (DESIGN.md section 4, "Past the enumerated bound on every axis")
 PAST_BOUND = {
     "C01": "files with 8..20 mothers, most of them given two or three blocks",
+    "C04": "the CDecay statement repeated in one table case in four",
     "C06": "registered names of 23..64 characters, a one-character one, 40 names registered at once",
     "C08": "a ladder file of 13 nested tables; every mother's reference answers from an instance of its own",
-    "C09": "ladder files of 5..30 nested tables",
+    "C09": "ladder files of 5..30 nested tables; the stable set as list / tuple / set, by keyword or position",
     "C10": "ladder files of 5..30 nested tables",
     "C11": "lines of 12..25 nested decays, modes with 10..14 distinct daughters",
-    "C12": "lines of 12..25 nested decays, modes with 10..14 distinct daughters",
+    "C12": "lines of 12..25 nested decays, modes with 10..14 distinct daughters; the stable set as list / tuple / set / frozenset / "
+           "dict keys, by keyword or position",
     "C13": "lines of 12..25 nested decays, modes with 10..14 distinct daughters",
-    "C15": "lines of 12..25 nested decays, modes with 10..14 distinct daughters",
-    "C16": "tables of 9..30 lines with up to 15 distinct values",
-    "C17": "numbers past 2 pi, 180 and 360, 1e4 and 1e-7 among the spellings",
-    "C18": "files with up to 8 sub-decay lines and up to 9 mother lines, randomly interleaved",
+    "C15": "lines of 12..25 nested decays, modes with 10..14 distinct daughters; dictionaries whose equal sub-tables are one object",
+    "C16": "tables of 9..30 lines with up to 15 distinct values; every sixth table printed through its CDecay conjugate",
+    "C17": "numbers past 2 pi, 180 and 360, 1e4 and 1e-7 among the spellings; options read as text=, by file name (str) and by Path",
+    "C18": "files with up to 8 sub-decay lines and up to 9 mother lines, randomly interleaved, with trailing remarks, read as text=, "
+           "by file name and by Path",
 }
 
 
